@@ -40,8 +40,9 @@ def _cond(test):
 
 
 def find_chain(fn, min_arms=3):
-    """the first if/elif/else chain in fn with >= min_arms arms all testing one scrutinee against constants.
-    returns (scrutinee, [(op, const, body)], else_body)"""
+    """the first decision chain in fn with >= min_arms arms all testing one scrutinee against constants: either an
+    if/elif/else statement, or (canonical form) consecutive `if c: ... return/raise` statements whose fall-through is the
+    default arm. returns (scrutinee, [(op, const, body)], else_body)"""
     for node in ast.walk(fn):
         if not isinstance(node, ast.If):
             continue
@@ -61,7 +62,34 @@ def find_chain(fn, min_arms=3):
             break
         if arms and len(arms) + (1 if else_body else 0) >= min_arms:
             return scr, arms, else_body
+    # flattened form
+    for blk in _blocks(fn):
+        for i, s in enumerate(blk):
+            arms, scr = [], None
+            j = i
+            while j < len(blk) and isinstance(blk[j], ast.If) and not blk[j].orelse and isinstance(blk[j].body[-1], (ast.Return, ast.Raise)):
+                c = _cond(blk[j].test)
+                if c is None or (scr is not None and c[0] != scr):
+                    break
+                scr = c[0]
+                arms.append((c[1], c[2], blk[j].body))
+                j += 1
+            else_body = blk[j:]
+            if arms and len(arms) + (1 if else_body else 0) >= min_arms:
+                return scr, arms, else_body
     return None
+
+
+def _blocks(fn):
+    out = [fn.body]
+    for n in ast.walk(fn):
+        if n is fn:
+            continue
+        for fld in ('body', 'orelse', 'finalbody'):
+            b = getattr(n, fld, None)
+            if isinstance(b, list) and b and isinstance(b[0], ast.stmt) and not isinstance(n, (ast.FunctionDef, ast.AsyncFunctionDef, ast.ClassDef)):
+                out.append(b)
+    return out
 
 
 def arm_facts(body):
